@@ -593,9 +593,18 @@ def autoforwards_function(func, args, kwargs):
     return autoforwards_ast(func, func_ast, sig, args, kwargs)
 
 
+def is_hint(h):
+    """``(function, ast of its definition, its signature)`` -- and not just
+    anything an object that makes up its attributes (a mock) returns"""
+    return (
+        isinstance(h, tuple) and len(h) == 3
+        and isinstance(h[1], ast.AST)
+        and isinstance(h[2], _util.funcsigs.Signature))
+
+
 def autoforwards_hint(func, args, kwargs):
     h = func._sigtools__autoforwards_hint(func)
-    if h is not None:
+    if is_hint(h):
         return autoforwards_ast(h[0], h[1], h[2], args, kwargs)
     else:
         raise UnknownForwards()
